@@ -663,7 +663,7 @@ pub fn main(tier: Tier, replay: Option<String>) -> i32 {
     let with = Arc::new(World::build(numeral_spec("W-num", true)).expect("W-num"));
     let without = Arc::new(World::build(numeral_spec("W-num-plain", false)).expect("W-num-plain"));
     let mut jobs: Vec<Box<dyn AnyJob>> = Vec::new();
-    let alpha = syms(&["1", "0", "5"], &["2", "〇", "一", "三", "十", "百", "千", "万", "億", "兆", ",", ".", "x", ",000"]);
+    let alpha = syms(&["1", "0", "5"], &["2", "〇", "一", "三", "十", "百", "千", "万", "億", "兆", ",", ".", "x", ",000", "1.5"]);
     let bounds = tier.pick(TreeBounds { full_len: 4, ext_len: 7, max_special: 2 }, TreeBounds { full_len: 5, ext_len: 9, max_special: 2 });
     let b = bounds.to_json();
     jobs.push(job(NumSpace { label: "W-num/numeral-strings".into(), with: with.clone(), without: without.clone(), alpha: alpha.clone(), bounds }, Strategy::Dfs, Some(tier.pick(50, 3000)), b));
